@@ -297,6 +297,11 @@ def random_projects(spec, acc):
             sibling_scans(rnd, acc)
         if i % 3 == 0:
             rescans_after_edit(rnd, acc)
+        if i % 5 == 0:
+            # the result of a scan is first used after the tree was removed / rewritten / the working directory changed
+            from .. import lazyscan
+
+            lazyscan.late_use_case(rnd, acc, "C02", {"edge-missing": "C02", "edge-extra": "C02"})
         tspec = trees.random_project(rnd, imports_per_file=(0, 4), externals=0.1, dangling=0.05)
         dirs = trees.all_dirs(tspec)
         mp_rel = rnd.choice(dirs) if rnd.random() < 0.4 else ""
@@ -376,6 +381,10 @@ def replay(case, acc):
         check_positions_project(paths, acc, case["importer"])
     elif case["kind"] == "random":
         scan_and_attribute(case["spec"], acc, case, case["mp"])
+    elif case["kind"] == "late-use":
+        from .. import lazyscan
+
+        lazyscan.replay(case, acc, "C02", {"edge-missing": "C02", "edge-extra": "C02"})
     elif case["kind"] == "rescan-after-edit":
         rescans_after_edit(random.Random(0), acc, forced=case)
     else:
@@ -401,6 +410,8 @@ def floors(acc, tier):
         why.append("too few imports written relative to module_path's parent")
     if acc.counters["rescans_after_in_place_edit"] < 20:
         why.append("too few re-scans after an in-place edit with restored timestamps")
+    if acc.counters["scan_results_first_used_after_a_change"] < 20:
+        why.append("too few scan results first used after the tree / the working directory changed")
     if acc.counters["scans_judged"] < 20:
         why.append("too few scans judged by the monitor")
     for f in FORMS:
